@@ -649,6 +649,9 @@ func Peel(v ssa.Value) ssa.Value {
 			return v
 		case *ssa.Call:
 			if rs := helperResults(x, 0); len(rs) == 1 && x.Call.Signature().Results().Len() == 1 {
+				if freshPerCall(x, rs[0]) {
+					return v // each call makes its own object: the call is its identity
+				}
 				v = rs[0]
 				continue
 			}
@@ -802,6 +805,10 @@ func Roots(v ssa.Value) []ssa.Value {
 		case *ssa.Call:
 			if x.Call.Signature().Results().Len() == 1 {
 				if rs := helperResults(x, 0); len(rs) > 0 {
+					if len(rs) == 1 && freshPerCall(x, rs[0]) {
+						out = append(out, v)
+						return
+					}
 					for _, r := range rs {
 						rec(r, depth+1)
 					}
@@ -828,12 +835,41 @@ func Roots(v ssa.Value) []ssa.Value {
 						return
 					}
 				}
+				if mv := memoValue(x); mv != nil {
+					rec(mv, depth+1)
+					return
+				}
 			}
 		}
 		out = append(out, v)
 	}
 	rec(v, 0)
 	return out
+}
+
+// freshPerCall: the new helper called by call is called from several sites and returns an
+// object it allocates itself (make(http.Header), &T{…}): every call yields a different object,
+// so the allocation instruction inside the helper must not be taken for their common identity.
+func freshPerCall(call *ssa.Call, res ssa.Value) bool {
+	h := StaticFunc(call.Common())
+	if h == nil {
+		return false
+	}
+	info := helperOf(h)
+	if info == nil || len(info.sites) < 2 {
+		return false
+	}
+	ri, ok := res.(ssa.Instruction)
+	if !ok || ri.Parent() != h {
+		return false
+	}
+	switch a := res.(type) {
+	case *ssa.MakeMap, *ssa.MakeSlice, *ssa.MakeChan:
+		return true
+	case *ssa.Alloc:
+		return a.Heap
+	}
+	return false
 }
 
 // isLocalCell: an Alloc of a scalar/pointer/interface variable (not a struct or
@@ -970,6 +1006,14 @@ func sameRoot(a, b ssa.Value) bool {
 			return ca.Value != nil && cb.Value != nil && constant.Compare(ca.Value, token.EQL, cb.Value)
 		}
 		return false
+	}
+	// two different calls of an allocating helper are two objects, whatever their paths say
+	if ca, isA := a.(*ssa.Call); isA {
+		if cb, isB := b.(*ssa.Call); isB && ca != cb {
+			if rs := helperResults(ca, 0); len(rs) == 1 && freshPerCall(ca, rs[0]) {
+				return false
+			}
+		}
 	}
 	pa, oka := AccessPath(a)
 	pb, okb := AccessPath(b)
@@ -2027,6 +2071,14 @@ func newStructField(base ssa.Value, idx int) ssa.Value {
 			base = b.X
 		case *ssa.ChangeType:
 			base = b.X
+		case *ssa.FieldAddr:
+			// a configuration bundle kept in a field of a struct the module already had
+			// (d.cfg.backendTimeout): the one value that field was created with
+			if v := groupInitOf(b); v != nil {
+				base = v
+				continue
+			}
+			return nil
 		default:
 			return nil
 		}
